@@ -390,6 +390,7 @@ theorem applyStep_noinv (E : Env) : ∀ (p : Plan) (v r : Value), applyStep E re
       split at h
       · split at h
         · obtain ⟨ie, _, h⟩ := bindOk h
+          obtain ⟨t, _, h⟩ := bindOk h
           simp at h; subst h; exact W.of_nil rfl
         · simp at h; subst h; exact W.of_nil rfl
       · split at h
@@ -406,6 +407,7 @@ theorem applyStep_noinv (E : Env) : ∀ (p : Plan) (v r : Value), applyStep E re
     split at h
     · split at h
       · obtain ⟨ie, _, h⟩ := bindOk h
+        obtain ⟨t, _, h⟩ := bindOk h
         simp at h; subst h; exact W.of_nil rfl
       · simp at h; subst h; exact W.of_nil rfl
     · split at h
@@ -420,6 +422,7 @@ theorem applyStep_noinv (E : Env) : ∀ (p : Plan) (v r : Value), applyStep E re
     split at h
     · split at h
       · obtain ⟨ie, _, h⟩ := bindOk h
+        obtain ⟨t, _, h⟩ := bindOk h
         simp at h; subst h; exact W.of_nil rfl
       · simp at h; subst h; exact W.of_nil rfl
     · obtain ⟨es'', hes'', h⟩ := bindOk h
